@@ -41,10 +41,15 @@ type IngestResult struct {
 	Ingested []prompb.TimeSeries // series handed to the (single) ingesting node, deep-copied
 }
 
-// IngestHTTP sends body (already snappy-compressed) through receiveHTTP of a
-// fresh single-node Handler (replication factor 1) whose only peer records the
-// series it is asked to ingest.
-func IngestHTTP(body []byte, headers map[string]string) (*IngestResult, error) {
+// IngestSession is one single-node Handler (replication factor 1) whose only
+// peer records the series it is asked to ingest; requests are sent through
+// receiveHTTP one after the other, on the caller's goroutine.
+type IngestSession struct {
+	h  *receive.Handler
+	sc *captureScript
+}
+
+func NewIngestSession() (*IngestSession, error) {
 	limiter, err := receive.NewLimiter(nil, nil, receive.RouterIngestor, log.NewNopLogger(), time.Second)
 	if err != nil {
 		return nil, err
@@ -60,9 +65,18 @@ func IngestHTTP(body []byte, headers map[string]string) (*IngestResult, error) {
 	})
 	sc := &captureScript{}
 	receive.VerifSetPeers(h, sc, 4)
-	defer receive.VerifClosePeers(h)
 	h.Hashring(receive.SingleNodeHashring("node-0"))
+	return &IngestSession{h: h, sc: sc}, nil
+}
 
+func (s *IngestSession) Close() { receive.VerifClosePeers(s.h) }
+
+// Send sends body (already snappy-compressed) and reports the status and the
+// series handed to ingestion by THIS request.
+func (s *IngestSession) Send(body []byte, headers map[string]string) (res *IngestResult, err error) {
+	s.sc.mu.Lock()
+	s.sc.reqs = nil
+	s.sc.mu.Unlock()
 	req, err := http.NewRequest("POST", "http://receive/api/v1/receive", bytes.NewReader(body))
 	if err != nil {
 		return nil, err
@@ -72,26 +86,19 @@ func IngestHTTP(body []byte, headers map[string]string) (*IngestResult, error) {
 		req.Header.Set(k, v)
 	}
 	rec := httptest.NewRecorder()
-	res := &IngestResult{}
-	done := make(chan struct{})
-	go func() {
-		defer close(done)
+	res = &IngestResult{}
+	func() {
 		defer func() {
 			if p := recover(); p != nil {
 				res.Panic = fmt.Sprint(p)
 			}
 		}()
-		h.VerifReceiveHTTP(rec, req)
+		s.h.VerifReceiveHTTP(rec, req)
 	}()
-	select {
-	case <-done:
-	case <-time.After(20 * time.Second):
-		return nil, fmt.Errorf("handler did not return")
-	}
 	res.Status, res.Body = rec.Code, rec.Body.String()
-	sc.mu.Lock()
-	defer sc.mu.Unlock()
-	for _, r := range sc.reqs {
+	s.sc.mu.Lock()
+	defer s.sc.mu.Unlock()
+	for _, r := range s.sc.reqs {
 		for _, td := range r.TimeseriesTenantData {
 			for _, ts := range td.Timeseries {
 				res.Ingested = append(res.Ingested, cloneSeries(ts))
@@ -99,6 +106,16 @@ func IngestHTTP(body []byte, headers map[string]string) (*IngestResult, error) {
 		}
 	}
 	return res, nil
+}
+
+// IngestHTTP sends one request through a fresh session.
+func IngestHTTP(body []byte, headers map[string]string) (*IngestResult, error) {
+	s, err := NewIngestSession()
+	if err != nil {
+		return nil, err
+	}
+	defer s.Close()
+	return s.Send(body, headers)
 }
 
 func cloneSeries(ts prompb.TimeSeries) prompb.TimeSeries {
